@@ -292,8 +292,10 @@ Definition mon_C03 (cs : amap pconf) (o : obs) (te : tid * event) : bool :=
       forallb (fun i => let x := oi_get o i in
                         negb (o_alive x) && negb (is_running_status (r_status (on_get o (o_nm x))))) snap
   | ELaunch true, Some i =>
-      (* no launch after a completed shutdown, except for instances started afterwards *)
-      if Nat.ltb 0 (o_sd_done o) then memN i (o_after_sd_spawn o) else true
+      (* no launch after a completed shutdown, except for instances started by an explicit request afterwards
+         or by an explicit request that was still in progress when the shutdown took its snapshot (such an
+         instance was never in a shutdown snapshot) *)
+      if Nat.ltb 0 (o_sd_done o) then memN i (o_after_sd_spawn o) || (o_byapi (oi_get o i) && negb (o_insnap (oi_get o i))) else true
   | _, _ => true
   end.
 
